@@ -126,6 +126,13 @@ def generate(rng, tier):
             continue
         taken.add(rel)
         news.append({"op": "write", "path": rel, "c": gen.unique_content(rng), "fault": "add_unrelated_file"})
+    newdirs = []
+    if rng.random() < (0.6 if empty else 0.15):
+        # brand-new empty folders (their content hash is the digest of nothing, like an empty file's)
+        for name in rng.sample(["0_new_empty", "D1/aa empty", "zz_empty", "!scratch"], rng.randint(1, 2)):
+            if name not in taken:
+                taken.add(name)
+                newdirs.append({"op": "mkdir", "path": name, "fault": "add_empty_dir"})
     f2 = f1 if rng.random() < 0.4 else gen.pick_formats(rng, 1, 2)
     dr = ["create", "@R", "-dr"] + gen.fmt_args(f2) + (["-n"] if rng.random() < 0.2 else [])
     # an optional second round: other files renamed in a later generation (each file still renamed only once)
@@ -141,7 +148,7 @@ def generate(rng, tier):
             taken.add(dst)
             moved.add(src)
             renames2.append({"op": "rename", "src": src, "dst": dst, "fault": "rename_second_round", "kind": "second-round"})
-    return {"world": env, "ops": setup, "renames": renames, "news": news, "dr": dr, "edit_seed": rng.getrandbits(30),
+    return {"world": env, "ops": setup, "renames": renames, "news": news, "newdirs": newdirs, "dr": dr, "edit_seed": rng.getrandbits(30),
             "renames2": renames2, "forgot_dr_first": rng.random() < 0.2}
 
 
@@ -157,6 +164,8 @@ def execute(sc, ctx):
         if w.apply_env(r):
             applied.append(r)
     news = [n for n in sc["news"] if w.apply_env(n)]
+    for nd in sc.get("newdirs", []):
+        w.apply_env(nd)
     ctx.absorb_world(w)
     if not applied:
         ctx.probe("no_rename_fired_na")
@@ -295,6 +304,8 @@ def shrink_candidates(sc):
         yield dict(sc, renames=rs)
     for ns in ddmin_list(sc["news"]):
         yield dict(sc, news=ns)
+    if sc.get("newdirs"):
+        yield dict(sc, newdirs=sc["newdirs"][1:])
     protected = set()
     for r in sc["renames"]:
         protected |= {r["src"], os.path.dirname(r["dst"]), os.path.dirname(r["src"])}
